@@ -145,7 +145,9 @@ func (e *Env) eval(x Expr) *Value {
 		v := e.eval(n.X)
 		t, err := g.W.lookupType(n.T, e.pkgPath)
 		if err != nil {
-			return e.fail("%v", err)
+			// a type outside the loaded packages cannot be the dynamic type of a value built in them
+			g.note("type test against " + n.T.String() + ", which is not among the loaded packages, is false")
+			return boolVal("false")
 		}
 		if len(v.L) != 2 {
 			return e.fail("'is' on non-interface %s", exprString(n.X))
@@ -569,7 +571,12 @@ func (e *Env) evalBinary(n *Binary) *Value {
 	case "||":
 		return boolVal(smtOr(e.evalBool(n.X), e.evalBool(n.Y)))
 	case "==>":
-		return boolVal(smtImp(e.evalBool(n.X), e.evalBool(n.Y)))
+		a := e.evalBool(n.X)
+		if a == "false" {
+			// vacuous (e.g. "x is T" for a type that is not part of the loaded packages): the consequent is not evaluated
+			return boolVal("true")
+		}
+		return boolVal(smtImp(a, e.evalBool(n.Y)))
 	case "<==>":
 		return boolVal(smtEq(e.evalBool(n.X), e.evalBool(n.Y)))
 	case "==":
